@@ -5,6 +5,26 @@ OUTSIDE = ('stability and bounded gain of the LPC filter produced by silk_NLSF2A
            'bandwidth-expansion loop): no bounded encoding within reach, not claimed; silk_LPC_fit/LPC_inverse_pred_gain internals')
 TAB = ['silk/tables_NLSF_CB_NB_MB.c', 'silk/tables_NLSF_CB_WB.c']
 
+import os, subprocess
+def gen_flat_pitch(d):
+    """cbmc 6.11 returns an unconstrained value for a read past row 0 of a constant 2-D table through &T[0][0] (the C standard leaves
+    it undefined; every compiler defines it, and silk_decode_pitch relies on it).  The four lag codebooks are therefore re-emitted as flat
+    1-D arrays, dumped from the *current* silk/pitch_est_tables.c by a natively compiled printer, and decode_pitch.c is compiled against them."""
+    T = [('silk_CB_lags_stage2', 4, 11), ('silk_CB_lags_stage3', 4, 34), ('silk_CB_lags_stage2_10_ms', 2, 3), ('silk_CB_lags_stage3_10_ms', 2, 12)]
+    src = os.path.join(d, 'dump.c')
+    with open(src, 'w') as f:
+        f.write('#include <stdio.h>\n#include "%s"\nint main(void){\n' % os.path.join(REPO, 'silk', 'pitch_est_tables.c'))
+        for n, r, c in T:
+            f.write(' { const opus_int8 (*t)[%d]=%s; if(sizeof(%s)!=%d) return 3; printf("static const opus_int8 vt_flat_%s[%d]={"); for(int i=0;i<%d;i++) for(int j=0;j<%d;j++) printf("%%d,",t[i][j]); printf("};\\n"); }\n' % (c, n, n, r * c, n, r * c, r, c))
+        f.write(' return 0; }\n')
+    inc = ['-I' + os.path.join(REPO, x) for x in ('include', 'celt', 'silk', 'silk/float', '.')] + ['-I' + os.path.join(VERIF, 'harness', 'cfg'), '-DHAVE_CONFIG_H']
+    subprocess.check_call(['gcc', '-w'] + inc + [src, '-o', os.path.join(d, 'dump')])
+    out = subprocess.check_output([os.path.join(d, 'dump')]).decode()
+    with open(os.path.join(d, 'flat_pitch_tables.h'), 'w') as f:
+        f.write(out)
+        for n, r, c in T:
+            f.write('#define %s (*(const opus_int8 (*)[%d][%d])vt_flat_%s)\n' % (n, r, c, n))
+
 def obligations():
     L = []
     for wb, t, b in ((0, 'quick', 600), (1, 'thorough', 1500)):
@@ -19,7 +39,7 @@ def obligations():
     L.append(Ob('H5.gains', 'C18_gains.c', ['silk/gain_quant.c', 'silk/log2lin.c', 'silk/lin2log.c'], [], unwind=1,
                 unwindset=['harness:5', 'silk_gains_dequant:5', 'silk_gains_quant:5'], functions=['silk_gains_dequant', 'silk_gains_quant'], budget=600,
                 bounds='any previous index 0..63, any absolute (0..63) / delta (0..40) indices, 2 or 4 sub-frames; any positive encoder gains'))
-    L.append(Ob('H6.decode_pitch', 'C18_pitch.c', ['silk/decode_pitch.c', 'silk/pitch_est_tables.c'], [], unwind=1,
+    L.append(Ob('H6.decode_pitch', 'C18_pitch.c', [], [], unwind=1, gen=gen_flat_pitch,
                 unwindset=['harness:5', 'silk_decode_pitch:5'], functions=['silk_decode_pitch'], budget=600,
                 bounds='any lagIndex in int16, any contour index of the (fs, nb_subfr) codebook, fs in {8,12,16}, 2/4 sub-frames'))
     for ic in (0, 1, 2, 3, 4):
